@@ -166,3 +166,133 @@ def need(cond, msg):
 def stmt_key(node):
     """Position-free key for a statement / expression (normalised text)."""
     return ' '.join(src(node).split())
+
+
+# ---------------------------------------------------------------------------------------
+# canonical forms (so that harmless rewrites compare equal)
+# ---------------------------------------------------------------------------------------
+
+_FLIP = {ast.Gt: ast.Lt, ast.GtE: ast.LtE, ast.Lt: ast.Gt, ast.LtE: ast.GtE, ast.Eq: ast.Eq, ast.NotEq: ast.NotEq}
+_SYM = {ast.Lt: '<', ast.LtE: '<=', ast.Eq: '==', ast.NotEq: '!=', ast.Gt: '>', ast.GtE: '>=', ast.In: 'in', ast.NotIn: 'not in',
+        ast.Is: 'is', ast.IsNot: 'is not'}
+
+
+def canon_test(n):
+    """Canonical text of a condition: comparisons oriented with < / <= (a >= b is written b <= a), == and != with sorted operands,
+    operands of and/or sorted, `not` pushed into comparisons.  Blank-free."""
+    if isinstance(n, ast.BoolOp):
+        parts = sorted(canon_test(v) for v in n.values)
+        return '(' + (' and ' if isinstance(n.op, ast.And) else ' or ').join(parts) + ')'
+    if isinstance(n, ast.UnaryOp) and isinstance(n.op, ast.Not):
+        o = n.operand
+        if isinstance(o, ast.UnaryOp) and isinstance(o.op, ast.Not):
+            return canon_test(o.operand)
+        if isinstance(o, ast.Compare) and len(o.ops) == 1:
+            neg = {ast.Lt: ast.GtE, ast.LtE: ast.Gt, ast.Gt: ast.LtE, ast.GtE: ast.Lt, ast.Eq: ast.NotEq, ast.NotEq: ast.Eq, ast.In: ast.NotIn,
+                   ast.NotIn: ast.In, ast.Is: ast.IsNot, ast.IsNot: ast.Is}.get(type(o.ops[0]))
+            if neg is not None:
+                return canon_test(ast.Compare(left=o.left, ops=[neg()], comparators=o.comparators))
+        return 'not ' + canon_test(o)
+    if isinstance(n, ast.Compare) and len(n.ops) == 1:
+        op = type(n.ops[0])
+        l, r = src(n.left).replace(' ', ''), src(n.comparators[0]).replace(' ', '')
+        if op in (ast.Gt, ast.GtE):
+            l, r, op = r, l, _FLIP[op]
+        if op in (ast.Eq, ast.NotEq) and r < l:
+            l, r = r, l
+        return '%s%s%s' % (l, _SYM.get(op, '?'), r)
+    return src(n).replace(' ', '')
+
+
+def aug_form(stmt):
+    """(target node, op class, value node) for `t op= v`, `t = t op v` and (commutative op) `t = v op t`; else None."""
+    if isinstance(stmt, ast.AugAssign):
+        return stmt.target, type(stmt.op), stmt.value
+    if isinstance(stmt, ast.Assign) and len(stmt.targets) == 1 and isinstance(stmt.value, ast.BinOp):
+        t, v = stmt.targets[0], stmt.value
+        if src(v.left) == src(t):
+            return t, type(v.op), v.right
+        if src(v.right) == src(t) and isinstance(v.op, (ast.Add, ast.Mult)):
+            return t, type(v.op), v.left
+    return None
+
+
+def single_defs(fdef):
+    """name -> value node for locals assigned at exactly one site (by a plain assignment)"""
+    sites = {}
+    for n in walk_no_nested_defs(fdef):
+        if isinstance(n, ast.Assign):
+            for t in n.targets:
+                for x in ast.walk(t):
+                    if isinstance(x, ast.Name) and isinstance(x.ctx, ast.Store):
+                        sites.setdefault(x.id, []).append(n.value if isinstance(t, ast.Name) and len(n.targets) == 1 else None)
+        elif isinstance(n, ast.AnnAssign) and n.value is not None and isinstance(n.target, ast.Name):
+            sites.setdefault(n.target.id, []).append(n.value)
+        elif isinstance(n, ast.AugAssign) and isinstance(n.target, ast.Name):
+            sites.setdefault(n.target.id, []).append(None)
+        elif isinstance(n, ast.For):
+            for x in ast.walk(n.target):
+                if isinstance(x, ast.Name):
+                    sites.setdefault(x.id, []).append(None)
+    out = {}
+    for k, v in sites.items():
+        if any(x is None for x in v):
+            continue
+        real = [x for x in v if not isinstance(x, ast.Constant)]      # a constant initialiser of a C declaration is not a second definition
+        if len(real) == 1:
+            out[k] = real[0]
+        elif len(v) == 1:
+            out[k] = v[0]
+    return out
+
+
+def resolve_alias(node, defs, depth=3):
+    """follow a Name through single-site definitions (and casts) to the expression it stands for"""
+    n = strip_cast(node)
+    while depth > 0 and isinstance(n, ast.Name) and n.id in defs:
+        n = strip_cast(defs[n.id])
+        depth -= 1
+    return n
+
+
+def _always_exits(stmts):
+    return bool(stmts) and isinstance(stmts[-1], (ast.Return, ast.Raise, ast.Break, ast.Continue))
+
+
+def guards_of(node, stop):
+    """Canonical conditions that hold whenever `node` executes inside `stop` (a FunctionDef or loop): tests of enclosing ifs (negated for
+    the else side) and negations of earlier guard clauses (`if c: return/raise/break/continue`) in the enclosing blocks."""
+    out = set()
+    cur = node
+    while cur is not stop and cur is not None:
+        par = getattr(cur, '_parent', None)
+        if par is None:
+            break
+        for fld in ('body', 'orelse', 'finalbody'):
+            blk = getattr(par, fld, None)
+            if isinstance(blk, list) and cur in blk:
+                if isinstance(par, ast.If):
+                    t = par.test if fld == 'body' else ast.UnaryOp(op=ast.Not(), operand=par.test)
+                    out.add(canon_test(t))
+                for prev in blk[:blk.index(cur)]:
+                    if isinstance(prev, ast.If) and _always_exits(prev.body) and not prev.orelse:
+                        out.add(canon_test(ast.UnaryOp(op=ast.Not(), operand=prev.test)))
+                    elif isinstance(prev, ast.If) and prev.orelse and _always_exits(prev.orelse) and not _always_exits(prev.body):
+                        out.add(canon_test(prev.test))
+        cur = par
+    return out
+
+
+def inline(node, defs, depth=3):
+    """copy of `node` with every Name that has a single-site definition replaced by that definition (recursively, bounded)"""
+    import copy
+
+    class T(ast.NodeTransformer):
+        def __init__(self, d):
+            self.d = d
+
+        def visit_Name(self, n):
+            if isinstance(n.ctx, ast.Load) and n.id in defs and self.d > 0:
+                return T(self.d - 1).visit(copy.deepcopy(strip_cast(defs[n.id])))
+            return n
+    return T(depth).visit(copy.deepcopy(node))
